@@ -4,6 +4,11 @@ Decides: (a) every PRIMARY KEY / UNIQUE uniqueness validator, once it has fetche
 only answer Ok after looking at the table's keys (hash index lookup, unique-index data or scan):
 no shortcut path; (b) every insert/update mutation site reachable from INSERT/UPDATE entry points
 is preceded on every path by the row validators (NOT NULL/PK/UNIQUE/CHECK) of its statement.
+(c) in the bulk INSERT ... SELECT path the switch that turns a validator
+on depends on the destination schema only, and each validator call is decided by its own flag only;
+(d) hash-index probes of the uniqueness validators are keyed in the index's column order;
+(e) per-constraint vectors consumed by position are filled on every iteration (REPLACE);
+(f) "which constraint's index is affected by this UPDATE" is decided existentially.
 Does NOT decide that the hash indexes are right (C15) or CHECK expression semantics."""
 import re
 from ..engine.callgraph import CallGraph
@@ -97,3 +102,72 @@ def run(ctx):
         f = prog.by_nice[ofn][0]
         ctx.finding(f'b/{ofn}/{ocal}', f'{ofn}: rows are written by {ocal.rsplit("::",1)[1]} with no row validation before it on some '
                     f'path ({M.chain_str(chain)})', f.loc, {'chain': chain})
+
+
+    # ---------------------------------------------------------------- (c) gating flags of the bulk-transfer path
+    from . import shared
+    from ..engine.symexpr import Sym
+    from ..engine.cfg import cfg
+    from ..engine.paths import loop_headers
+    ctx.rule('C10.c', 'check_schema_compatibility: whether validate_unique / validate_primary_key / validate_foreign_keys / validate_check is '
+             'set depends only on the destination schema (no condition mentioning the source decides it); execute_bulk_transfer: each '
+             'validator call is decided by its own compat_result.validate_* flag and nothing else')
+    csc = ctx.fn(EX + 'insert::bulk_transfer::check_schema_compatibility')
+    sym = Sym(csc)
+    src_name = csc.names.get(2)
+    flags = {}
+    for bi, b in enumerate(csc.blocks):
+        if b['t'].get('cleanup'):
+            continue
+        for st in b['s']:
+            if 'd' in st and st['d'][1] and st['d'][1][-1].startswith('.validate_') and st['v']['r'] == 'use':
+                from ..engine.cfg import op_const
+                if op_const(st['v']['a']) == 1:
+                    flags.setdefault(st['d'][1][-1][1:], []).append(bi)
+
+    def guard_region(reach):
+        # early exits that mark the schemas incompatible: the bulk path is not taken at all
+        for rb in reach:
+            for st in csc.blocks[rb]['s']:
+                if 'd' in st and st['d'][1] and st['d'][1][-1] == '.compatible':
+                    return True
+        return False
+    ctx.floor('C10.c validate_* flags set in check_schema_compatibility', len(flags), 4)
+    lh = loop_headers(csc)
+    hdr_sw = {sw for (sw, _n) in lh.values()}
+    for fl, blocks in sorted(flags.items()):
+        for bi in blocks:
+            conds = [shared.switch_condition(csc, sblk, sym) for sblk in shared.deciding_switches(csc, bi, guard_region) if sblk not in hdr_sw]
+            ctx.instance(f'c/flag/{fl}', {'rule': 'C10.c', 'flag': fl, 'decided_by': [c[:120] for c in conds]})
+            for c in conds:
+                if src_name and re.search(r'(?<![A-Za-z_0-9])' + re.escape(src_name) + r'(?![A-Za-z_0-9])', c):
+                    ctx.finding(f'c/flag/{fl}/depends-on-source', f'check_schema_compatibility: {fl} is switched on only if `{c[:140]}` holds — a '
+                                'condition on the SOURCE table: rows already in the destination are not looked at when it is false', csc.loc)
+            if not conds:
+                ctx.finding(f'c/flag/{fl}/unconditional', f'check_schema_compatibility: no condition found for {fl} (rule needs re-derivation)', csc.loc)
+    gate = {EX + 'insert::constraints::enforce_primary_key_constraint': 'validate_primary_key',
+            EX + 'insert::constraints::enforce_unique_constraints': 'validate_unique',
+            EX + 'insert::constraints::enforce_check_constraints': 'validate_check',
+            EX + 'insert::foreign_keys::validate_foreign_key_constraints': 'validate_foreign_keys'}
+    bsym = Sym(bt)
+    blh = loop_headers(bt)
+    bhdr = {sw for (sw, _n) in blh.values()}
+    for i, t in bt.calls():
+        cn = callee_name(t)
+        if cn in gate:
+            conds = [shared.switch_condition(bt, sblk, bsym) for sblk in shared.deciding_switches(bt, i) if sblk not in bhdr]
+            conds = [c for c in conds if not c.startswith('discr(branch(')]      # `?` of earlier fallible calls
+            ctx.instance(f'c/gate/{gate[cn]}', {'rule': 'C10.c', 'validator': cn.rsplit('::', 1)[1], 'decided_by': conds})
+            extra = [c for c in conds if not c.endswith('.' + gate[cn])]
+            if extra or not conds:
+                ctx.finding(f'c/gate/{gate[cn]}', f'execute_bulk_transfer: {cn.rsplit("::",1)[1]} is decided by {conds} — expected exactly '
+                            f'compat_result.{gate[cn]}', f'{bt.file}:{t["l"]}')
+
+    # ---------------------------------------------------------------- (d) (e) (f) shared rules
+    VALMOD = re.compile(r"^vibesql_executor::(insert::constraints::|insert::row_validator::RowValidator::<'a>::validate_(primary_key|unique)|"
+                        r"update::constraints::|insert::replace::|insert::duplicate_key_update::)")
+    shared.hash_key_rule(ctx, 'C10.d', lambda f: bool(VALMOD.match(f.nice)), exceptions=shared.PREEXTRACTED, floor=6)
+    shared.key_order_rule(ctx, 'C10.d2')
+    shared.aligned_rule(ctx, 'C10.e', lambda f: f.nice.startswith('vibesql_executor::insert::') or f.nice.startswith('vibesql_executor::update::constraints'), floor=1)
+    shared.quantifier_rule(ctx, 'C10.f', lambda f: f.nice.startswith('vibesql_storage::table::') or f.nice.startswith('vibesql_executor::insert::')
+                           or f.nice.startswith('vibesql_executor::update::constraints'), control_floor=2)
